@@ -123,9 +123,6 @@ MomentMatchesRational ==
 ASSUME MomentMatchesRational
 
 \* unit square = reference triangle  U  its image under (x, y) -> (1 - x, 1 - y)
-RECURSIVE FxSumRun(_, _, _)
-FxSumRun(acc, s, k) == IF ~Seen(acc) \/ k > Len(s) THEN acc ELSE FxSumRun(FxAdd(acc, s[k]), s, k + 1)
-FxSumAll(s) == FxSumRun(FxZero, s, 1)
 Sign(k) == IF k % 2 = 0 THEN 1 ELSE -1
 Pairs(a, b) == SetToSeq((0..a) \X (0..b))
 MirrorTri(a, b) ==
@@ -137,13 +134,11 @@ SquareIsTwoTriangles ==
   \A a, b \in 0..6 : FxNear(BoxMoment(<<a, b>>), FxAdd(SimplexMoment(<<a, b>>), MirrorTri(a, b)), FxTol(36))
 ASSUME SquareIsTwoTriangles
 \* the same identity in exact rational arithmetic on a smaller range (no tolerance at all)
-RECURSIVE QSumRun(_, _, _)
-QSumRun(acc, s, k) == IF acc[2] <= 0 \/ k > Len(s) THEN acc ELSE QSumRun(QAdd(acc, s[k]), s, k + 1)
 QMirrorTri(a, b) ==
   LET ps == Pairs(a, b) IN
-  QSumRun(QInt(0), [k \in DOMAIN ps |->
-                     QMul(QSimplexMoment(<<ps[k][1], ps[k][2]>>),
-                          QInt(Sign(ps[k][1] + ps[k][2]) * Binom(a, ps[k][1]) * Binom(b, ps[k][2])))], 1)
+  QSumAll([k \in DOMAIN ps |->
+             QMul(QSimplexMoment(<<ps[k][1], ps[k][2]>>),
+                  QInt(Sign(ps[k][1] + ps[k][2]) * Binom(a, ps[k][1]) * Binom(b, ps[k][2])))])
 SquareIsTwoTrianglesExact ==
   \A a, b \in 0..3 : QBoxMoment(<<a, b>>) = QAdd(QSimplexMoment(<<a, b>>), QMirrorTri(a, b))
 ASSUME SquareIsTwoTrianglesExact
